@@ -6,7 +6,7 @@ use crate::grammar::*;
 
 pub const ID: &str = "C02";
 
-pub const RULE: &str = "cases = (grammar, input). (a) configuration grid, enumerated completely: at_least in 0..4 x at_most in {none,0..4} (non-empty intervals) x allow_leading x allow_trailing x consumer in {collect Vec, collect String, count, collect (), bare Parser<()>, collect_exactly [_;N], enumerate, foldl, foldr} for 3 fixed (item, separator) pairs (incl. an item that can start like the separator, and a two-token separator) plus 3 items under plain repeated() with and without configure(), each followed by a remainder-capturing parser, on every string over {a , b} up to length L (L=5 quick, 7 thorough); (b) the empty-interval sub-domain at_least > at_most, kept apart; (c) random tier: repetitions whose item / separator are generated C01-class grammars (items consuming), bounds 0..4, all consumers, configure() at random, with derived inputs having k-1, k, k+1 items around each bound and leading / trailing / doubled separators. Compared with the reference: accept, collected value (order via non-commutative folds, enumerate indices), unconsumed remainder. Admissible variants V-lead / V-trail-cap (DESIGN.md 3.1) are both accepted. foldl_with / foldr_with are consumers of the grid and of the random class; exactly(n) is used wherever both bounds coincide; a statically typed family collects into every Container the library implements (Vec, String, usize, (), LinkedList, VecDeque, HashSet, BTreeSet, HashMap, BTreeMap, Box / Cell / RefCell of a container, via repeated, separated_by and enumerate) on every string over {a b c , x} up to length 5 / 6 against the item sequence the statement gives. NON-TRIVIAL = the item count is within 1 of a bound when the repetition stops, or a separator was present immediately before a failing item (leading / trailing / dangling separator); distinct = distinct (sub-check, grammar, input).";
+pub const RULE: &str = "cases = (grammar, input). (a) configuration grid, enumerated completely: at_least in 0..4 x at_most in {none,0..4} (non-empty intervals) x allow_leading x allow_trailing x consumer in {collect Vec, collect String, count, collect (), bare Parser<()>, collect_exactly [_;N], enumerate, foldl, foldr} for 3 fixed (item, separator) pairs (incl. an item that can start like the separator, and a two-token separator) plus 3 items under plain repeated() with and without configure(), each followed by a remainder-capturing parser, on every string over {a , b} up to length L (L=5 quick, 7 thorough); (b) the empty-interval sub-domain at_least > at_most, kept apart; (c) random tier: repetitions whose item / separator are generated C01-class grammars (items consuming), bounds 0..4, all consumers, configure() at random, with derived inputs having k-1, k, k+1 items around each bound and leading / trailing / doubled separators. Compared with the reference: accept, collected value (order via non-commutative folds, enumerate indices), unconsumed remainder. Admissible variants V-lead / V-trail-cap (DESIGN.md 3.1) are both accepted. foldl_with / foldr_with are consumers of the grid and of the random class; exactly(n) is used wherever both bounds coincide; a statically typed family collects into every Container the library implements (Vec, String, usize, (), LinkedList, VecDeque, HashSet, BTreeSet, HashMap, BTreeMap, Box / Cell / RefCell of a container, via repeated, separated_by and enumerate) on every string over {a b c , x} up to length 5 / 6 against the item sequence the statement gives. One random case in sixteen also runs on every other input representation (C10's comparison against the slice baseline). NON-TRIVIAL = the item count is within 1 of a bound when the repetition stops, or a separator was present immediately before a failing item (leading / trailing / dangling separator); distinct = distinct (sub-check, grammar, input).";
 
 pub const ASSUMPTIONS: &[&str] = &[
     "the reference repetition loop in harness/src/reference.rs implements the statement literally (greedy, possessive, succeed iff lo <= count <= hi, separators only between accepted items or where the flags permit)",
